@@ -52,6 +52,23 @@ def eval_facade(case):
             viol.append(V(f"facade/{name}", f"Fluid.{name} = {np.asarray(got).tolist()} but the stand-alone correlation "
                           f"with the object's T={T}, api={api}, gravity={g}, GOR={gor}, salinity={sal} gives "
                           f"{np.asarray(want).tolist()}", case=case, tol=REL))
+    # the same methods on a shuffled pressure array with repeats: values belong to their own positions
+    order = [3, 0, 5, 0, 2, 6, 2]
+    p_sh = p[order]
+    for name, fn, want in (("gas_FVF", lambda q: fl.gas_FVF(q, tpc, ppc), [gas.b_factor_DAK(T, x, tpc, ppc) for x in p_sh]),
+                           ("gas_viscosity", lambda q: fl.gas_viscosity(q, tpc, ppc), [gas.viscosity_Sutton(T, x, tpc, ppc, g) for x in p_sh]),
+                           ("water_FVF", fl.water_FVF, [water.b_water_McCain(T, x) for x in p_sh]),
+                           ("oil_FVF", fl.oil_FVF, [oil.b_o_Standing(T, x, api, g, gor) for x in p_sh]),
+                           ("oil_viscosity", fl.oil_viscosity, [oil.viscosity_beggs_robinson(T, x, api, g, gor) for x in p_sh])):
+        try:
+            got = np.asarray(fn(p_sh.copy()), dtype=float)
+        except Exception as e:  # noqa: BLE001
+            viol.append(V(f"facade-unordered/{name}", f"Fluid.{name} on a shuffled pressure array with repeats raises "
+                          f"{type(e).__name__}: {e}", case=case))
+            continue
+        if not rel_eq(got, want):
+            viol.append(V(f"facade-unordered/{name}", f"Fluid.{name} on the shuffled array {p_sh.tolist()} returns values that "
+                          "do not belong to their positions", case=case))
     # history: the object's public attributes are reassigned one at a time on the SAME object (after the
     # calls above); every method must follow the object's *current* attributes
     for attr, new in (("temperature", T + 85.0), ("api_gravity", api + 6.0), ("gas_specific_gravity", g + 0.11),
@@ -139,8 +156,16 @@ def eval_sutton(case):
 
     g, cont, dry = case["g"], case["cont"], case["dry"]
     viol = []
+    ref_now = gas.pseudocritical_point_Sutton(g, gas.make_nonhydrocarbon_properties(*cont), dry)  # make and use at once
     nh = gas.make_nonhydrocarbon_properties(*cont)
+    other = gas.make_nonhydrocarbon_properties(0.05, 0.02, 0.07)  # a second composition created before the first is used
+    if not np.array_equal(np.asarray(nh["fraction"][:3], dtype=float), np.asarray(cont, dtype=float)) or len(other) != 3:
+        viol.append(V("sutton/composition-aliased", f"creating another composition changed an earlier one: fractions "
+                      f"{nh['fraction'][:3].tolist()} instead of {cont}", case=case))
     base = gas.pseudocritical_point_Sutton(g, nh, dry)
+    if not rel_eq(base, ref_now, 0):
+        viol.append(V("sutton/composition-aliased", f"pseudocritical point of a composition created earlier {base} differs "
+                      f"from make-and-use-immediately {ref_now}", case=case))
     nh_x = gas.make_nonhydrocarbon_properties(*cont, ("Helium", 0.0, 4.0026, 9.34, 33.2))
     extra = gas.pseudocritical_point_Sutton(g, nh_x, dry)
     if not rel_eq(base, extra, 1e-13):
